@@ -14,7 +14,7 @@ from ..poly import padd, pscale, pconst, pmul, pneg, pfreeze
 from .. import rounding, mir
 from ..rounding import MODES, check_rounded, round_inc, Undecided, mode_names, u_summaries
 from .c05 import mode_arg, core_fn, CORE, MIN, MAX
-from .. import roles
+from .. import roles, conv
 
 SIGNS = {'neg': (MIN, -1), 'zero': (0, 0), 'pos': (1, M)}
 TWO127 = 2**127
@@ -165,22 +165,20 @@ TWO128 = 2**128
 
 
 def summ_special(I, st, args, fid):
-    """(U', proved by the 'special' cells) u256_idiv_u128_special(&mut xh, &mut xl, y) with *xh < y: (*xh, *xl) := (0, Q), returns r, where
-    xh*2^128 + xl = Q*y + r, 0 <= r < y (so Q < 2^128).  The precondition is an obligation at every call site."""
+    """(U', proved by the 'special' cells) u256_idiv_u128_special on (xh, xl, y) with xh < y: quotient words (0, Q) and remainder r, where
+    xh*2^128 + xl = Q*y + r, 0 <= r < y (so Q < 2^128).  The precondition is an obligation at every call site.  Inputs and outputs are read /
+    delivered by the function's own calling convention (conv.div_conv)."""
     from ..absint import Stop
-    from ..rounding import _deref
-    rh, rl, y = args
-    xh, xl = _deref(I, st, rh), _deref(I, st, rl)
+    from .. import conv
+    cv = conv.div_conv(I.db, I.db.fns[fid], 'SPECIAL')
+    xh, xl, y = cv.summ_inputs(I, st, args)
     if not st.sign(padd(xh.p, y.p, -1)) <= NEG:
-        raise Stop("contract U': precondition *xh < y of u256_idiv_u128_special not established at the call site")
+        raise Stop("contract U': precondition xh < y of u256_idiv_u128_special not established at the call site")
     W = st.norm(padd(pscale(xh.p, TWO128), xl.p))
     Q = I.tdiv_atom(st, W, st.norm(y.p))
     R = st.norm(padd(W, pmul(Q, st.norm(y.p)), -1))
     q = I.mk(st, 'u128', Q, 0, TWO128 - 1)
-    for ref, val in ((rh, K(0, 'u128')), (rl, q)):
-        tf = I.frame_of(st, ref.frame)
-        tf.L[ref.local] = I.updated(st, tf, tf.L.get(ref.local), list(ref.proj), val)
-    return I.mk(st, 'u128', R, 0, None)
+    return cv.summ_finish(I, st, args, [K(0, 'u128'), q, I.mk(st, 'u128', R, 0, None)])
 
 
 def job_kernel(db, job):
@@ -193,14 +191,16 @@ def job_kernel(db, job):
         I = Interp(db, Opts())
         st = I.new_state()
         x, y = st.sym('x', 0, TWO128 - 1, 'u128'), st.sym('y', 0, TWO128 - 1, 'u128')
-        I.call_root(st, fn, [x, y])
+        cv = conv.mul_conv(db, fn)
+        I.call_root(st, fn, cv.build_args(x, y))
         outs = I.explore(st)
         for o in outs:
             s = o.state
-            if o.kind != 'ret' or not (isinstance(o.value, Agg) and len(o.value.fields) == 2):
+            res = cv.read_outputs(o) if o.kind == 'ret' else None
+            if res is None:
                 bad.append(show_outcome(o)[:300])
                 continue
-            rh, rl = o.value.fields
+            rh, rl = res
             if not poly_eq(s, padd(pscale(rh.p, TWO128), rl.p), pmul(x.p, y.p)):
                 bad.append('hi*2^128 + lo != x*y: hi=%s lo=%s' % (show_poly(s, rh.p)[:200], show_poly(s, rl.p)[:200]))
     elif which == 'special':
@@ -219,19 +219,17 @@ def job_kernel(db, job):
         xl = st.sym('xl', 0, TWO128 - 1, 'u128')
         st.assume(padd(xh.p, y.p, -1), NEG)          # precondition *xh < y
         st.tactics = {'mult': sorted(patoms(y.p)), 'relb': [pscale(y.p, 2 ** n)], 'lp': 1}
-        I.call_root(st, fn, [ByRef(xh), ByRef(xl), y])
+        cv = conv.div_conv(db, fn, 'SPECIAL')
+        I.call_root(st, fn, cv.build_args(xh, xl, y))
         outs = I.explore(st)
         X = padd(pscale(xh.p, TWO128), xl.p)
         for o in outs:
             s = o.state
-            if o.kind != 'ret' or not isinstance(o.value, Int):
+            res = cv.read_outputs(o) if o.kind == 'ret' else None
+            if res is None:
                 bad.append(show_outcome(o)[:300])
                 continue
-            qh, ql = s.frames[0].L.get(100), s.frames[0].L.get(101)
-            if not (isinstance(qh, Int) and isinstance(ql, Int)):
-                bad.append('quotient words lost: %r %r' % (qh, ql))
-                continue
-            r = o.value
+            qh, ql, r = res
             if s.itv(qh) != (0, 0):
                 bad.append('*xh is not set to 0')
             elif not poly_eq(s, padd(pmul(ql.p, y.p), r.p), X):
@@ -252,19 +250,17 @@ def job_kernel(db, job):
         st = I.new_state()
         xh, xl = st.sym('xh', 0, TWO128 - 1, 'u128'), st.sym('xl', 0, TWO128 - 1, 'u128')
         y = st.sym('y', *yr)
-        I.call_root(st, fn, [ByRef(xh), ByRef(xl), y])
+        cv = conv.div_conv(db, fn, 'DIV64' if which == 'div64' else 'DIV')
+        I.call_root(st, fn, cv.build_args(xh, xl, y))
         outs = I.explore(st)
         X = padd(pscale(xh.p, TWO128), xl.p)
         for o in outs:
             s = o.state
-            if o.kind != 'ret' or not isinstance(o.value, Int):
+            res = cv.read_outputs(o) if o.kind == 'ret' else None
+            if res is None:
                 bad.append(show_outcome(o)[:300])
                 continue
-            qh, ql = s.frames[0].L.get(100), s.frames[0].L.get(101)
-            if not (isinstance(qh, Int) and isinstance(ql, Int)):
-                bad.append('quotient words lost: %r %r' % (qh, ql))
-                continue
-            r = o.value
+            qh, ql, r = res
             if not poly_eq(s, padd(pmul(padd(pscale(qh.p, TWO128), ql.p), y.p), r.p), X):
                 bad.append('(qh*2^128 + ql)*y + r != xh*2^128 + xl: qh=%s ql=%s r=%s' % (show_poly(s, qh.p)[:150], show_poly(s, ql.p)[:150], show_poly(s, r.p)[:150]))
             elif not (s.sign(r.p) <= NONNEG and s.sign(padd(r.p, y.p, -1)) <= NEG):
